@@ -766,7 +766,7 @@ fn main() {
     }
     // 4. wide-link graphs that take the advanced path (space assignment / isolation / duplication;
     //    modelled since round 2: exact bytes compared; the oracle applies as well)
-    for _ in 0..140 * scale {
+    for _ in 0..110 * scale {
         let d = gen_wide(&mut rng);
         run_case(&mut cx, &d, "wide", true);
     }
